@@ -176,6 +176,7 @@ def _build_exprs(world, fspecs, cspecs):
 EXCL_RC1_FUNCS = "two unlabeled functions of the same name in one select list (known finding: duplicate detection skipped, key answers with another column)"
 EXCL_RC1_GENLIKE = "explicit label shaped like a generated / de-duplicated label (anon_1, a_1): may collide with one (known finding: duplicate detection skipped)"
 EXCL_RC1_TRUNC = ">=3 select-list entries share one name and are not all distinct plain columns (repeated column, or explicit labels of that name): de-duplicated proxy keys (a_N) collide with result keys (known finding: duplicate detection skipped -> wrong column, or spurious Ambiguous)"
+EXCL_RC1_ANONSHIFT = "de-duplicated column names (a_1, a_2) are anonymous labels re-numbered per compilation: next to a bind parameter named after the column (a + :a_1), or picked from a derived table in another order, the rendered keys differ from the proxy / collection keys and collide with them (known finding: duplicate detection skipped, key a_2 answers with another column)"
 EXCL_RC2_UNARY = "unlabeled unary minus over a column that is also selected (known finding: both share one result-map entry, column object lookup raises Ambiguous)"
 EXCL_RC3_TQ = "result key / explicit label equal to the legacy tablename_colname of another selected column (known finding: raises Ambiguous)"
 EXCL_RC1_TEXTNAME = "text().columns(name=type) where the SQL returns that name more than once (known finding: duplicate detection skipped)"
@@ -215,6 +216,36 @@ def _known_exclusions_simple(recs, case, info):
         elif len({r["colid"] for r in recs if r["kind"] in ("col", "neg") and r["cname"] == "x_1" and not r["label"]}) >= 2:
             # the de-duplicated second column x_1_1 is truncated to x_1, the first column's own name
             trig.append(EXCL_RC1_TRUNC)
+    # the de-duplicated names a_1, a_2 .. are anonymous labels numbered by the compile-wide counter that bind parameters named
+    # after the column (a + :a_1) also consume, while the secondary (proxy / collection) keys stay a_1, a_2: with >=2
+    # de-duplicated columns of one base name and a bind of that name the rendered key a_2 of one column is the proxy key of the next
+    bases = {}
+    for r in recs:
+        b = r.get("base", r["cname"])
+        if b is None:
+            continue
+        ent = bases.setdefault(b, {"cols": set(), "dedup": set(), "binds": 0})
+        if r["kind"] == "col" and not r["label"]:
+            (ent["dedup"] if r.get("dedup") else ent["cols"]).add(r["colid"])
+        elif r["kind"] in ("add", "addlabel", "func", "funclabel"):
+            ent["binds"] += 1
+    for ent in bases.values():
+        if ent["binds"] >= 1 and len(ent["dedup"]) + max(len(ent["cols"]) - 1, 0) >= 2:
+            trig.append(EXCL_RC1_ANONSHIFT)
+            break
+    else:
+        # derived-table columns de-duplicated by the inner select are re-numbered in the order the outer select mentions
+        # them (select(sq.c.a_2, sq.c.a_1) renders sq.a_1, sq.a_2): a rendered key equal to another picked column's
+        # collection key is the same collision
+        for b in bases:
+            order = []
+            for r in recs:
+                if r.get("dedup") and r.get("base") == b and r["colid"] not in [c for c, _ in order]:
+                    order.append((r["colid"], r["key"]))
+            rendered = {cid: f"{b}_{n}" for n, (cid, _) in enumerate(order, start=1)}
+            if any(rendered[ci] == kj for ci, _ in order for cj, kj in order if cj != ci):
+                trig.append(EXCL_RC1_ANONSHIFT)
+                break
     plain = [r for r in recs if r["kind"] == "col"] if EXCL_RC1_TRUNC not in trig else []
     for r in plain:
         if sum(1 for q in plain if q["colid"] == r["colid"]) > 1 and any(
@@ -387,7 +418,7 @@ def _classify(info):
 
     def cfn(what, key):
         trig = info.get("triggers") or []
-        if any(t in (EXCL_RC1_FUNCS, EXCL_RC1_GENLIKE, EXCL_RC1_TEXTNAME, EXCL_RC1_TRUNC) for t in trig) and what.startswith("string-key/"):
+        if any(t in (EXCL_RC1_FUNCS, EXCL_RC1_GENLIKE, EXCL_RC1_TEXTNAME, EXCL_RC1_TRUNC, EXCL_RC1_ANONSHIFT) for t in trig) and what.startswith("string-key/"):
             return "C11/string-key/duplicate-detection-skipped"
         if EXCL_RC2_UNARY in trig and (what.startswith("object-key/") or what.startswith("string-key/")):
             return "C11/object-key/unlabeled-unary-shares-column-entry"
@@ -466,7 +497,9 @@ def _shape_sub(world, case, classes, info):
         for p in case["outer"]["pick"]:
             c = sc[p["i"] % len(exprs)]
             kind = p["kind"]
+            anon_named = str(c.name) != str(c.key)  # derived column de-duplicated by the inner select: .name is an anonymous label
             recs.append(dict(kind=kind, label=(LABELS[p["name"] % len(LABELS)] if kind in ("label", "addlabel") else None), cname=c.name,
+                             base=(re.sub(r"_\d+$", "", str(c.key)) if anon_named else str(c.name)), dedup=anon_named, key=str(c.key),
                              tq=(f"{name}_{c.name}" if (name and kind == "col") else None), colid=id(c)))
         _known_exclusions_simple(recs, case, info)
         info["legacy_names"] = {r["tq"] for r in recs if r["tq"]}
